@@ -60,6 +60,7 @@ WHAT = {
              "wrapping intervals, solution() via the non-modular intersection)",
     "sub": "subtraction loses members, only for closure operands that are not well-formed (stride exceeds the span)",
     "not": "bitwise not loses members, only for closure operands that are not well-formed",
+    "operands": "an operation changed one of its operand objects in place",
     "add": "addition loses members, only for closure operands that are not well-formed (stride exceeds the span)",
 }
 WHAT_SETS = {
@@ -92,9 +93,12 @@ def signature(ev, clause):
         enc = lambda v: [v["rg"], [_v(x) for x in v["si"]]]  # noqa: E731
         return [k, ev["op"], ev["how"], enc(ev["Av"]), ev["bt"], _v(ev["B"]), enc(ev["Bv"]), ev["p"], clause]
     if k == "conv":
-        return [k, ev["t"], [[n, w, _v(v)] for n, w, v in ev["vars"]], clause]
+        seq = [ev["ctx"]] if str(ev.get("ctx", "")).startswith("seq") else []
+        return [k, ev["t"], [[n, w, _v(v)] for n, w, v in ev["vars"]], *seq, clause]
     if k == "c2si":
         return [k, ev["c"], [[n, w, _v(v)] for n, w, v in ev["vars"]], clause]
+    if k == "operands":
+        return [k, ev.get("ctx", "si"), _v(ev["A"]), _v(ev["B"]), clause]
     if k == "opset":
         return [k, ev["W"], clause]
     return [k, clause]
@@ -149,6 +153,10 @@ def unbatch(ev, x):
     """a rejected sub-event of a k=batch line -> the stand-alone event"""
     if ev.get("k") != "batch":
         return ev
+    if int(x) == 0:         # clause about the batch itself (operand preservation)
+        return {"k": "operands", "op": "operands", "how": "seq", "exc": "", "A": ev["A"], "B": ev["B"], "A2": ev["A2"],
+                "B2": ev["B2"], "ops": [s[1] for s in ev["subs"]], "ctx": ev["ctx"], "cls": ev["cls"],
+                "tg": ev.get("tg", "det")}
     s = ev["subs"][int(x) - 1]
     return {"k": s[0], "op": s[1], "how": s[2], "exc": s[3], "p": s[4], "R": s[5], "rb": s[6], "C": s[7],
             "n": 3 if s[7] else 2, "A": ev["A"], "B": ev["B"], "ctx": ev["ctx"], "cls": ev["cls"],
@@ -187,7 +195,7 @@ def plan_c21(tier, seed, regen):
             jobs.append({"gen": "unary", "W": W, "popA": extra, "maxw": 6, "_w": W, "_n": len(extra)})
             # pairs with at least one closure operand
             jobs += parts({"gen": "pairs", "W": W, "kinds": kinds, "popX": extra, "only_new": 1, "_w": W,
-                           "_n": len(extra)}, N if W == 3 else 1)
+                           "_n": len(extra), "stable_mod": 1 if thorough or W < 3 else 4}, N if W == 3 else 1)
         return jobs
 
     phases.append(("closure-1", "det", closure_phase))
@@ -266,7 +274,8 @@ def plan_c24(tier, seed, regen):
     p = [{"gen": "conv", "mode": "d1", "W": 1}]
     p += parts({"gen": "conv", "mode": "d1", "W": 2}, N)
     p += parts({"gen": "conv", "mode": "d1", "W": 3, "slice_mod": 7 if thorough else 63, "maxw": 5}, N)
-    p += parts({"gen": "conv", "mode": "rand", "n": 24000 if thorough else 4000, "seed": 777, "widths": [2, 3, 4]}, N)
+    p += parts({"gen": "conv", "mode": "rand", "n": 24000 if thorough else 3000, "seed": 777, "widths": [2, 3, 4]}, N)
+    p += [{"gen": "conv", "mode": "seq", "W": W} for W in (2, 3)]
     phases = [("terms", "det", p)]
     if not regen:
         phases.append(("rand-sound", "seeded",
@@ -420,8 +429,9 @@ def check(pid, tier, regen=False):
 
 SCOPES = {
     "C21": ("W=1..3: all ordered pairs of WFSet(W) x {12 binary ops, 10 comparisons, concat (also across widths)} and "
-            "all unary/extension/extract cases, plus closure level 1 (non-well-formed results fed back, all pairs with "
-            ">=1 closure operand); W=4: all unary cases, every 369th ordered pair x all ops; seeded 1% of W=4 pairs for "
+            "all unary/extension/extract cases, plus closure level 1 (non-well-formed results fed back; at W=3 a content-hashed "
+            "quarter of the pairs with >=1 closure operand, all of them in thorough); every operand pair is one sequence "
+            "on the same operand objects (concat first) whose operands are read back afterwards; W=4: all unary cases, every 369th ordered pair x all ops; seeded 1% of W=4 pairs for "
             "the sound operators",
             "as quick, W=4 every 41st ordered pair, seeded 10% of W=4 pairs, wide widths 8..64 sampled"),
     "C22": ("W=1..3: all ordered pairs of WFSetB(W) x {union, least_upper_bound, widen, intersection}, all triples at "
@@ -429,11 +439,15 @@ SCOPES = {
             "W=4 pairs: every 369th + seeded 1% (union, lub)",
             "as quick with W=4 every 41st pair, W=3 triples, seeded 10%"),
     "C23": ("W=1: all sets; W=2: every 3rd 2-subset and every 40th 3-subset of WFSet(2) x all intervals, both orders, "
-            "slice of set x set; lowered collapse threshold; value sets with 1-2 regions; W=3 seeded sample",
+            "slice of set x set; lowered collapse threshold; value sets with 1-2 regions (two-region operands also assembled "
+            "in the opposite region order); W=3 seeded sample",
             "W=2: all 2-subsets"),
-    "C24": ("d1 shapes over all ordered pairs of WFSet(W), W=1,2; every 63rd pair at W=3; 4000-term catalogue; seeded "
+    "C24": ("d1 shapes (incl. nested If guarded by the negated/same condition, directly and under an arithmetic node) "
+            "over all ordered pairs of WFSet(W), W=1,2; every 63rd pair at W=3; 3000-term catalogue; re-annotation "
+            "sequences (same variable and bounds, coarse to fine stride, earlier expressions alive / collected); seeded "
             "2400 sound-operator terms", "every 7th pair at W=3; 24000-term catalogue; 16000 seeded"),
-    "C25": ("all shapes x comparisons x constants at W=2,3,4; all interval-annotated variables at W=3; And/Or/Not "
+    "C25": ("all shapes (incl. ZeroExt(n,x) & low-ones mask narrower/equal/wider than x) x comparisons x constants at "
+            "W=2,3,4; all interval-annotated variables at W=3; And/Or/Not "
             "catalogue (1200); seeded plain comparisons at W=6", "plus every 4th at W=5, catalogue 8000"),
 }
 
